@@ -216,7 +216,7 @@ func runCfg(run *rep.Run, c cfg, id int) {
 			type variant struct{ route, spelling, model string }
 			vs := []variant{{"proxy", "exact", M}}
 			// rotate the other variants over the cases to keep the run short
-			others := []variant{{"proxy", "other-case", "MM-7B"}, {"provider", "exact", M}, {"anthropic", "exact", M}, {"proxy", "lower-of-mixed-case-listing", "tagged:latest"}, {"anthropic", "other-case", "Mm-7b"}, {"provider", "other-case", "MM-7b"}, {"proxy", "exact+body>1MiB", M}, {"provider-unknown-path", "exact", M}, {"anthropic", "exact+body>1MiB", M}, {"proxy-unknown-path", "exact", M}, {"proxy", "exact+chunked", M}, {"provider", "exact+chunked", M}, {"proxy", "exact+image-part", M}, {"provider", "exact+image-part", M}}
+			others := []variant{{"proxy", "other-case", "MM-7B"}, {"provider", "exact", M}, {"anthropic", "exact", M}, {"proxy", "lower-of-mixed-case-listing", "tagged:latest"}, {"anthropic", "other-case", "Mm-7b"}, {"provider", "other-case", "MM-7b"}, {"proxy", "exact+body>1MiB", M}, {"provider-unknown-path", "exact", M}, {"anthropic", "exact+body>1MiB", M}, {"proxy-unknown-path", "exact", M}, {"proxy", "exact+chunked", M}, {"provider", "exact+chunked", M}, {"proxy", "exact+image-part", M}, {"provider", "exact+image-part", M}, {"proxy", "exact+content-type-form", M}, {"provider", "exact+content-type-text", M}, {"proxy", "exact+content-type-none", M}}
 			if rep.Thorough() || rep.Mode() != "race" {
 				vs = append(vs, others...)
 			} else {
@@ -394,6 +394,15 @@ func oneCase(run *rep.Run, c cfg, st stack, hc *http.Client, backs []*backend.St
 	}
 	req, _ := http.NewRequest("POST", st.base()+path+"?n="+nonce, rdr)
 	req.Header.Set("Content-Type", "application/json")
+	switch {
+	// the same JSON body, labelled the way generic clients label it (curl -d sends the first)
+	case strings.Contains(spelling, "content-type-form"):
+		req.Header.Set("Content-Type", "application/x-www-form-urlencoded")
+	case strings.Contains(spelling, "content-type-text"):
+		req.Header.Set("Content-Type", "text/plain; charset=utf-8")
+	case strings.Contains(spelling, "content-type-none"):
+		req.Header.Del("Content-Type")
+	}
 	res := client.Do(hc, req)
 	landed := -1
 	nLanded := 0
@@ -427,6 +436,9 @@ func oneCase(run *rep.Run, c cfg, st stack, hc *http.Client, backs []*backend.St
 	}
 	if strings.Contains(spelling, ">1MiB") {
 		cls += "/body>1MiB"
+	}
+	if i := strings.Index(spelling, "content-type-"); i >= 0 {
+		cls += "/" + spelling[i:]
 	}
 	ok2xx := res.Err == "" && res.Status >= 200 && res.Status < 300
 	if nLanded > 1 {
